@@ -139,6 +139,25 @@ def build(tier, work, builder):
     gen.append(f"#define N_ALT {len(a2)}\n#define EMPTY_ALT {[i for i, a in enumerate(a2) if not a][0]}")
     write(work, "array_decl_actions.inc", "\n".join(gen) + "\n")
     aobj = builder.cc(os.path.join(CDIR, "arr15.c"), includes=[work])
+    # ---- lexer.l: actions of the rules that switch the flex start condition, and of the two <<EOF>> rules
+    lx = X.Source("src/lexer.l")
+    cb_s, cb_e = lx.find_unique(r"^<comment>\{", what="lexer.l: <comment> block")
+    cb_end = lx.match_brace(cb_e - 1)
+    acts = {}
+    def rule_action(name, rx, lo, hi):
+        s, e = lx.find_unique(rx, lo, hi, what="lexer.l rule " + name)
+        b = lx.text.index("{", e - 1) if lx.text[e - 1] != "{" else e - 1
+        be = lx.match_brace(b)
+        acts[name] = X.Slice("lexer.l rule action: " + name, lx, b, be)
+    rule_action("comment_close", r'^\s*"\*/"\s*\{', cb_e, cb_end)
+    rule_action("comment_eof", r"^\s*<<EOF>>\s*\{", cb_e, cb_end)
+    rule_action("comment_open", r'^"/\*"\s*\{', cb_end, None)
+    rule_action("initial_eof", r"^<<EOF>>\s*\{", cb_end, None)
+    txt = ""
+    for nm in ("comment_open", "comment_close", "comment_eof", "initial_eof"):
+        txt += "static int act_%s(void)\n%s\n" % (nm, acts[nm].text[:-1] + " return -1; }")
+    write(work, "lexer_state_actions.inc", txt)
+    slices += list(acts.values())
     obj = builder.cc(os.path.join(CDIR, "ps15.cpp"), includes=[work, os.path.join(X.REPO, "include")], cpp=True)
     kf = ["KF1_CLASS(h)=((h).position == 0xffffffffu)"]
     hobj = builder.cc(os.path.join(CDIR, "h_c15.c"), includes=[work], defines=["EXCLUDE_KF"] + kf)
@@ -151,6 +170,8 @@ def build(tier, work, builder):
     J("c15_entry_xta", "h_c15_entry_xta", ["static parse_XTA(ParserBuilder*, bool, xta_part_t, std::string)", "setStartToken", "PositionTracker::setPath"])
     J("c15_entry_property", "h_c15_entry_property", ["static parseProperty(ParserBuilder*, const std::string&)", "setStartToken", "PositionTracker::setPath"])
     J("c15_lex", "h_c15_lex", ["utap_lex"])
+    J("c15_start_condition_xta", "h_c15_start_condition_xta", ["static parse_XTA prologue", "lexer.l rules \"/*\", \"*/\", <comment><<EOF>>, <<EOF>> (actions)"], bound_note="<= 3 comment openings/closings per scan")
+    J("c15_start_condition_property", "h_c15_start_condition_property", ["static parseProperty prologue", "lexer.l rules \"/*\", \"*/\", <comment><<EOF>>, <<EOF>> (actions)"], bound_note="<= 3 comment openings/closings per scan")
     jobs.append(F.Job("c15_array_counter", "h_c15_array_counter", [aobj], timeout=300, unwind=12,
                       functions=["parser.y rules ArrayDecl / ArrayDecl2 (actions on the global counter `types`)"], bound_note="array declarators of <= 4 dimensions"))
     J("c15_position_wrap", "h_c15_position_wrap", ["PositionTracker::setPath (counter monotonicity across calls)"], note="run with the known-finding class excluded: must pass")
@@ -161,7 +182,7 @@ def build(tier, work, builder):
         "drops": ["utap_parse (bison) and lexer_flex (flex) are stubs: the grammar and scanner are generated code outside the verifier",
                   "std::string xpath is an identity; MAXLEN shortened (only rootTransId[0] is observed)"],
         "trusted_base": ["CBMC 6.11 C++ front end + SAT", "token ids generated from the %token list (distinct, as bison assigns them)", "stubs in contracts/C15/ps15.cpp"],
-        "assumptions": ["flex state (YY_START, buffer stack) and bison's own state are not under contract: an exception thrown while the scanner is inside a comment leaves YY_START in the comment condition for the next call",
+        "assumptions": ["the flex start condition is under contract for complete scans (c15_start_condition_*: the rule actions that switch it and the two <<EOF>> rules, extracted from lexer.l); an exception thrown while the scanner is inside a comment would still leave it in the comment condition; flex's buffer stack and bison's own state are not under contract",
                         "rootTransId is not re-initialised by the prologues; the grammar writes it before the first use in a transition list (not under contract: grammar actions); the counter `types` is covered by c15_array_counter (actions of ArrayDecl/ArrayDecl2 replayed in bison's order; dimensions are assumed not to nest another array declarator)",
                         "the public wrappers are checked textually to be scan_string / static entry / delete_buffer only",
                         "everything after the prologue (the parse itself) is outside this kernel: the whole-history statement is NOT decided"],
